@@ -242,7 +242,13 @@ Qed.
 
 Lemma handler_neg w n now o : wp anyR (handler w n now o) (Qneg_op o).
 Proof.
-  destruct o; try destruct g; cbv beta iota zeta delta [handler]; try (apply lift_neg).
+  destruct o; try destruct g; cbv beta iota zeta delta [handler];
+    try match goal with
+        | |- wp _ (bind (revoke _ _ _) _) _ => idtac
+        | |- wp _ (bind (notify_success _ _ _ _ _) _) _ => idtac
+        | |- wp _ (bind (notify_failure _ _) _) _ => idtac
+        | |- wp _ (bind _ _) _ => apply lift_neg
+        end.
   - apply init_auth_neg.
   - apply continue_auth_neg.
   - apply push_auth_neg.
@@ -262,3 +268,4 @@ Proof.
     rewrite app_nil_r. intros HF. left. apply Ha, HF.
   - intros H; discriminate.
 Qed.
+
